@@ -106,6 +106,10 @@ type Link struct {
 	FaultAt      map[int]string
 	// Hook, when set, runs before each exchange (scheduler yield point / invariants).
 	Hook func(k int)
+	// RespHook, when set, is an on-path adversary: it may replace the response of exchange k.
+	RespHook func(k int, cmd, resp []byte) []byte
+	// CmdHook, when set, may answer instead of the chip (impostor); ok=false passes the command on.
+	CmdHook func(k int, cmd []byte) (resp []byte, ok bool)
 }
 
 func NewLink(c *chip.Chip, faults []Fault, out *core.Outcome) *Link {
@@ -157,10 +161,22 @@ func (l *Link) Transceive(cla, ins, p1, p2 int, data []byte, le int, encodedData
 			l.fire(f.Kind)
 		}
 	}
+	if processed && l.CmdHook != nil {
+		if r, ok := l.CmdHook(k, cmd); ok {
+			resp, processed = r, false
+			l.fire("impostor_answer")
+		}
+	}
 	if processed {
 		resp = l.Chip.Transceive(cmd)
 	}
 	genuine := bytes.Clone(resp)
+	if l.RespHook != nil {
+		if r := l.RespHook(k, cmd, resp); !bytes.Equal(r, resp) {
+			resp = r
+			l.fire("mitm_edit")
+		}
+	}
 	if l.haveStale {
 		resp = l.stale
 		l.haveStale = false
